@@ -31,6 +31,10 @@ def canon_info(v):
     """monitor info records: 'STOP("a; b")' carries a set-ordered termination message"""
     if isinstance(v, str) and v.startswith('STOP("') and v.endswith('")'):
         return 'STOP("%s")' % canon_msg(v[6:-2])
+    if isinstance(v, str) and 'mysticsim-' in v:
+        # DUMPED("...")/LOADED("...") notes carry the per-process scratch directory
+        import re
+        return re.sub(r'[^"\s]*mysticsim-\d+-[^/"]+', '<scratch>', v)
     return canon(v)
 
 def feq(a, b):
